@@ -309,10 +309,17 @@ package eio
 //@     requires recv == s && wheld(s.transportMu) && value == t && swapped == 0 [C07.cli.swap.locked]
 //@     update oldt = s.transport
 //@     update swapped = swapped + 1
+// The pause: BEFORE the swap, and with the lock NOT held (delivering the paused transport's last packets may need it),
+// the current transport is discarded - for long-polling that waits until the request in flight has been answered and
+// delivered (contract of polling Discard below) - so that everything the server sent over the old transport has
+// arrived before the upgrade packet tells it to switch. Then the swap as before.
+//@   ghost paused int = 0
 //@   callsite ClientTransport.Discard skip
-//@     requires wheld(s.transportMu) && swapped == 1 && recv == oldt [C07.cli.discard.old.locked]
-//@     update discarded = discarded + 1
+//@     requires (swapped == 0 && paused == 0 && !held(s.transportMu) && recv == s.transport) || (wheld(s.transportMu) && swapped == 1 && paused == 1 && recv == oldt) [C07.cli.pause.unlocked.then.discard.old.locked]
+//@     update discarded = discarded + (swapped == 1 ? 1 : 0)
+//@     update paused = paused + (swapped == 0 ? 1 : 0)
 //@   callsite ClientTransport.Send skip
+//@     requires paused == 1 [C07.cli.upgrade.packet.only.after.the.pause]
 //@     requires wheld(s.transportMu) && swapped == 1 && recv == t && sent == 0 && len(arg0) == 1 && arg0[0] != nil && arg0[0].Type == parser.PacketTypeUpgrade [C07.cli.upgrade.packet.first]
 //@     requires wheld(s.transportMu) [C14.cli.nothing.on.the.new.transport.before.the.upgrade.packet]
 //@     update sent = sent + 1
@@ -634,3 +641,14 @@ package eio
 //@     requires false [C17.upgrade.request.sends.nothing.on.the.session]
 //@   callsite (*serverSocket).Send go
 //@     requires false [C17.upgrade.request.sends.nothing.on.the.session.async]
+
+// C07 (server): from the probe on, the server keeps forcing poll cycles on the session (a NOOP, again and again) until
+// the client has switched or the attempt is over - the paused client waits for its request in flight to be answered.
+//@ func (*Server).maybeUpgrade$1$1
+//@   opt safety off
+//@   callsite (*serverSocket).Send skip
+//@     requires len(arg0) == 1 && arg0[0] == noop [C07.srv.forced.poll.cycles.carry.only.noop]
+//@   callsite (*serverSocket).upgradeTo
+//@     requires false [C07.srv.forcing.poll.cycles.never.swaps]
+//@   callsite (*serverSocket).close
+//@     requires false [C07.srv.forcing.poll.cycles.never.closes]
